@@ -190,9 +190,8 @@ def judge_send(ctx, drv, case, model=None, verbose=False, obs=None, report=None)
     out, dg, after, rs = obs if obs is not None else real_send(case)
     single, case = case, (report if report is not None else case)
     # a violation that fresh objects with the same configuration do not show is a different defect
-    used = ''
-    if obs is not None and real_send(single)[:3] != (out, dg, after):
-        used = ':on-used-session'
+    def used():
+        return ':on-used-session' if obs is not None and real_send(single)[:3] != (out, dg, after) else ''
     pwb = _pw_bytes(bytes.fromhex(single['pw']['hex']) if single['pw']['kind'] == 'bytes' else single['pw']['text'])
     sdu = bytes.fromhex(single['sdu'])
     auth, sid, seq = (single['auth'], single['sid'], single['seq']) if single['sess'] else (0, 0, 0)
@@ -210,7 +209,7 @@ def judge_send(ctx, drv, case, model=None, verbose=False, obs=None, report=None)
         return
     seq_exp = next_seq(seq) if (single['sess'] and single['act']) else seq
     if out != 'ok':
-        ctx.violate('C05:sent:raises:%s%s' % (out, used), 'sending a %d-byte payload with authentication type %d raises %s'
+        ctx.violate('C05:sent:raises:%s%s' % (out, used()), 'sending a %d-byte payload with authentication type %d raises %s'
                     % (len(sdu), auth, out), case, expected='a datagram', observed=out)
         return
     exp = lan_datagram(auth, seq_exp, sid, expected_code(auth, pwb, sid, seq_exp, sdu), sdu, rseq=dg[2] if len(dg) > 2 else 0xff)
@@ -223,7 +222,7 @@ def judge_send(ctx, drv, case, model=None, verbose=False, obs=None, report=None)
         ctx.disagree('oracle-send', case, 'Spec.Lan.sentOk=%s' % lean_ok, 'python figure says %s' % py_ok)
     if lean_ok == '1' and py_ok:
         if after != seq_exp:
-            ctx.violate('C05:sent:sequence-state' + used, 'session sequence number after sending is %d, datagram carries %d'
+            ctx.violate('C05:sent:sequence-state' + used(), 'session sequence number after sending is %d, datagram carries %d'
                         % (after, seq_exp), case, expected=seq_exp, observed=after)
         return
     # which clause
@@ -255,18 +254,20 @@ def judge_send(ctx, drv, case, model=None, verbose=False, obs=None, report=None)
             what, sig = 'length byte %s, payload has %d bytes' % (ln, len(sdu)), 'length-byte'
         elif lean.unhex(payload) != sdu:
             what, sig = 'payload changed', 'payload'
-    ctx.violate('C05:sent:' + sig + used, what + (' (on a session object that sent other datagrams before)' if used else ''), case, expected=lean.hexs(exp), observed=lean.hexs(dg))
+    u = used()
+    ctx.violate('C05:sent:' + sig + u, what + (' (on a session object that sent other datagrams before)' if u else ''), case,
+                expected=lean.hexs(exp), observed=lean.hexs(dg))
 
 
 def judge_recv(ctx, drv, case, variant, model=None, verbose=False, obs=None, report=None):
     dgram = bytes.fromhex(case['dgram']) if case['dgram'] != '-' else b''
     ignore = bool(case['ignore'])
     out, data = obs if obs is not None else real_recv(ignore, dgram)
-    used = ''
     if report is not None:
         case = report
-        if real_recv(ignore, dgram) != (out, data):
-            used = ':on-used-interface'
+
+    def used():
+        return ':on-used-interface' if report is not None and real_recv(ignore, dgram) != (out, data) else ''
     code_s = out if out != 'ok' else 'ok ' + ('none' if data is None else lean.hexs(data))
     if verbose:
         print('  real: %s' % code_s)
@@ -281,14 +282,14 @@ def judge_recv(ctx, drv, case, variant, model=None, verbose=False, obs=None, rep
         want = lean.unhex(spec.split()[1])
         if out != 'ok':
             if len(want) == 0:
-                ctx.violate('C05:receive:empty-payload' + used, 'a valid datagram whose payload is empty is not unwrapped: '
+                ctx.violate('C05:receive:empty-payload' + used(), 'a valid datagram whose payload is empty is not unwrapped: '
                             '_receive_ipmi_msg raises %s' % (out[3:] if out.startswith('py:') else out), case,
                             expected='payload of 0 bytes', observed=out)
             else:
-                ctx.violate('C05:receive:rejects-valid:%s%s' % (out, used), 'a valid datagram is rejected with %s' % out, case,
+                ctx.violate('C05:receive:rejects-valid:%s%s' % (out, used()), 'a valid datagram is rejected with %s' % out, case,
                             expected=lean.hexs(want), observed=out)
         elif (data or b'') != want:
-            ctx.violate('C05:receive:payload' + used, 'the unwrapped payload differs from the datagram\'s payload', case,
+            ctx.violate('C05:receive:payload' + used(), 'the unwrapped payload differs from the datagram\'s payload', case,
                         expected=lean.hexs(want), observed=lean.hexs(data or b''))
     else:
         if out == 'ok':
@@ -296,7 +297,7 @@ def judge_recv(ctx, drv, case, variant, model=None, verbose=False, obs=None, rep
             why = 'short'
             if p != ['none']:
                 why = 'version' if int(p[0]) != 6 else 'class' if int(p[3]) != 7 else 'length'
-            ctx.violate('C05:receive:accepts-bad-%s%s' % (why, used), 'a datagram with a wrong %s is accepted' % why, case,
+            ctx.violate('C05:receive:accepts-bad-%s%s' % (why, used()), 'a datagram with a wrong %s is accepted' % why, case,
                         expected='rejected', observed=code_s)
 
 
